@@ -114,6 +114,22 @@ def node_shape(db, ctx):
     ctx.ob("Morpheme::is_oov", ok, "Morpheme::is_oov delegates to WordId::is_oov: %s" % ok, fn=m)
 
 
+def _span_arg(a):
+    """'offset' | 'offset + run' (run = cat_continuous_len(offset)) | rendered text"""
+    from ..db import deref_let
+    a0 = peel_casts(a)
+    if local_name(a0) == "offset":
+        return "offset"
+    if a0.get("k") == "Binary" and a0.get("op") == "Add":
+        l, r = peel_casts(a0["l"]), peel_casts(a0["r"])
+        for x, y in ((l, r), (r, l)):
+            if local_name(x) == "offset":
+                y2 = deref_let(y)
+                if y2.get("k") == "MethodCall" and y2.get("method") == "cat_continuous_len" and local_name(y2["args"][0]) == "offset":
+                    return "offset + run"
+    return render(a)
+
+
 @rule("C13.invoke", "MeCab OOV: a class is skipped iff !is_invoke && other words exist; grouped candidate spans offset..offset+run; per-length "
                     "candidates stop when longer than the (remaining) run")
 def invoke(db, ctx):
@@ -128,11 +144,22 @@ def invoke(db, ctx):
     ctx.ob("skip-iff-not-invoke-and-others", ok, "`if !cinfo.is_invoke && other_words.not_empty() { continue }`: %s" % ok, fn=f)
     grp = None
     for n, ps in walk(f.hir):
-        if n.get("k") == "If" and render(n["cond"]) == "cinfo.is_group":
+        if n.get("k") == "If" and render(n["cond"]).endswith(".is_group"):
             for c, _ in walk(n["then"]):
                 if is_call(c) and path_ends(callee(c), "get_oov_node"):
-                    grp = [render(a) for a in call_args(c)][2:]
-    ctx.ob("grouped-candidate-span", grp == ["offset", "(offset + char_len)"], "grouped candidate = get_oov_node(oov, %s) (must be offset, offset+char_len)" % grp, fn=f)
+                    grp = [_span_arg(a) for a in call_args(c)][2:]
+                elif is_call(c) and callee(c) in db.fns:
+                    # a private helper that builds the nodes: its (start, end) parameters are what reaches get_oov_node
+                    g = db.fns[callee(c)]
+                    plist = [p_.get("name") for p_ in (g.info.get("params") or [])]
+                    for c2, _ in walk(g.hir or {}):
+                        if is_call(c2) and path_ends(callee(c2), "get_oov_node"):
+                            inner = [local_name(a) for a in call_args(c2)][2:]
+                            if all(nm in plist for nm in inner):
+                                args = call_args(c)
+                                grp = [_span_arg(args[plist.index(nm)]) for nm in inner]
+    ctx.ob("grouped-candidate-span", grp == ["offset", "offset + run"], "grouped candidate = get_oov_node(oov, %s) (must span offset .. offset + "
+                                                                       "cat_continuous_len(offset))" % grp, fn=f)
     run = any(n.get("k") == "Let" and n["pat"].get("name") == "char_len" and "cat_continuous_len(offset)" in render(n["init"]) for n, _ in walk(f.hir))
     brk = any(n.get("k") == "If" and exit_kind(n["then"]) == "break" and cmp_atom(n["cond"]) and cmp_atom(n["cond"])[0] == "Gt" and "sublength" in render(n["cond"]) and "llength" in render(n["cond"])
               for n, _ in walk(f.hir))
@@ -179,71 +206,85 @@ def per_class_state(db, ctx):
                sorted(carried), ret, extra, "" if not extra else " — a budget consumed by one class leaks into the classes visited after it"), fn=f)
 
 
-@rule("C13.run-intersection", "fill_cat_continuity extends a run only while the running INTERSECTION of classes is non-empty: in the continuing "
-                              "branch the carried class set is narrowed to the intersection, in the other branch it restarts from the character's own classes")
+@rule("C13.run-intersection", "fill_cat_continuity extends a run only while the running INTERSECTION of classes is non-empty: where the "
+                              "intersection is non-empty the carried class set is narrowed to it, where it is empty the set restarts from the "
+                              "character's own classes")
 def run_intersection(db, ctx):
+    from ..db import deref_let
     f = db.one("fill_cat_continuity", "InputBuffer")
     loops = list(_loops(f))
     if not loops:
         raise AnchorMissing("fill_cat_continuity: loop")
     n0, (it, pat, body), ps0 = loops[0]
 
-    def let_init(nm):
-        for n2, _ in walk(f.hir):
-            if n2.get("k") == "Let" and n2["pat"].get("name") == nm and "init" in n2:
-                return peel(n2["init"])
-        return None
-
     def as_intersection(e):
-        """(a, b) if e is `a & b`, or a local bound to it"""
-        e = peel(e)
-        if e.get("k") == "Path" and e.get("res") == "local":
-            e = let_init(e["name"]) or e
+        e = deref_let(e)
         if e.get("k") == "Binary" and e.get("op") == "BitAnd":
             return local_name(e["l"]), local_name(e["r"])
         return None
 
+    def test_polarity(pcs):
+        """+1: the intersection is known non-empty here, -1: known empty, 0: not tested; plus the operand pair"""
+        for c, pol in pcs or []:
+            if not isinstance(c, dict):
+                continue
+            for a, p in atoms(c, pol):
+                a = peel(a)
+                if a.get("k") == "MethodCall" and a.get("method") == "is_empty":
+                    ops = as_intersection(a["recv"])
+                    if ops and None not in ops:
+                        return (-1 if p else 1), ops
+                if a.get("k") == "MethodCall" and a.get("method") == "intersects" and a["args"]:
+                    ops = (local_name(a["recv"]), local_name(a["args"][0]))
+                    if None not in ops:
+                        return (1 if p else -1), ops
+        return 0, None
+
+    inside = {x["pat"].get("name") for x, _ in walk(body) if x.get("k") == "Let"}
     found = False
-    for n, ps in walk(body):
-        if n.get("k") != "If":
+    verdicts = []
+    ok = True
+    for x, ps in walk(body):
+        tgt = None
+        rhs_inter = None
+        if x.get("k") == "Assign" and local_name(x["l"]) and local_name(x["l"]) not in inside:
+            tgt = local_name(x["l"])
+            rhs_inter = as_intersection(x["r"])
+            rhs_name = local_name(x["r"])
+        elif x.get("k") == "AssignOp" and x.get("op") == "BitAnd" and local_name(x["l"]) and local_name(x["l"]) not in inside:
+            tgt = local_name(x["l"])
+            rhs_inter = (tgt, local_name(x["r"]))
+            rhs_name = None
+        if tgt is None:
             continue
-        at = atoms(n["cond"], True)
-        if len(at) != 1:
-            continue
-        a, pol = peel(at[0][0]), at[0][1]
-        ops = None
-        if a.get("k") == "MethodCall" and a.get("method") == "is_empty" and pol is False:
-            ops = as_intersection(a["recv"])
-        elif a.get("k") == "MethodCall" and a.get("method") == "intersects" and pol is True:
-            ops = (local_name(a["recv"]), local_name(a["args"][0]))
-        if not ops or None in ops:
+        pol, ops = test_polarity(path_conditions(x["id"], body))
+        if ops is None or tgt not in ops:
+            if pol == 0:
+                # an assignment of the carried set that is not under the intersection test at all
+                carried_candidates = True
+                verdicts.append("`%s` assigned unconditionally" % tgt)
+                # only a problem if this variable IS the carried set of some tested intersection (checked below)
+                unconditional = tgt
+                ok_uncond = False
+                for y, ps2 in walk(body):
+                    p2, o2 = test_polarity(path_conditions(y.get("id"), body)) if y.get("k") in ("Assign", "AssignOp") else (0, None)
+                    if o2 and tgt in o2:
+                        ok = False
+                        found = True
             continue
         found = True
-        # which operand is carried across iterations (declared outside the loop body)?
-        inside = {x["pat"].get("name") for x, _ in walk(body) if x.get("k") == "Let"}
-        carried = [o for o in ops if o not in inside]
-        fresh = [o for o in ops if o in inside]
-        ok = False
-        detail = "operands %s" % (ops,)
-        if len(carried) == 1 and len(fresh) == 1:
-            c, cur = carried[0], fresh[0]
-            narrowed = False
-            for x, _ in walk(n["then"]):
-                if x.get("k") == "Assign" and local_name(x["l"]) == c:
-                    i2 = as_intersection(x["r"])
-                    narrowed = bool(i2) and set(i2) == {c, cur}
-                if x.get("k") == "AssignOp" and x.get("op") == "BitAnd" and local_name(x["l"]) == c and local_name(x["r"]) == cur:
-                    narrowed = True
-            restart = "else" in n and any(x.get("k") == "Assign" and local_name(x["l"]) == c and local_name(x["r"]) == cur for x, _ in walk(n["else"]))
-            # an unconditional reassignment after the if defeats the narrowing
-            clobber = False
-            for st in body.get("stmts", []):
-                e = st.get("e") or {}
-                if e.get("k") == "Assign" and local_name(e["l"]) == c:
-                    clobber = True
-            ok = narrowed and restart and not clobber
-            detail = "carried `%s`, current `%s`: narrowed to the intersection in the continuing branch=%s, restarted from the current classes otherwise=%s, " \
-                     "overwritten unconditionally afterwards=%s" % (c, cur, narrowed, restart, clobber)
-        ctx.ob("continuing-branch-narrows", ok, "run continues while `%s`; %s" % (render(n["cond"]), detail), fn=f, site=n.get("sp"))
+        cur = [o for o in ops if o != tgt][0]
+        if pol == 1:
+            good = bool(rhs_inter) and set(rhs_inter) == {tgt, cur}
+            verdicts.append("non-empty: %s := %s" % (tgt, "intersection" if good else render(x.get("r", {}))))
+        else:
+            good = rhs_name == cur
+            verdicts.append("empty: %s := %s" % (tgt, rhs_name))
+        ok = ok and good
+    have_pos = any(v.startswith("non-empty") for v in verdicts)
+    have_neg = any(v.startswith("empty") for v in verdicts)
     if not found:
-        raise AnchorMissing("fill_cat_continuity: class-intersection test")
+        raise AnchorMissing("fill_cat_continuity: assignments of the carried class set under the intersection test")
+    ctx.ob("continuing-branch-narrows", ok and have_pos and have_neg,
+           "assignments of the carried class set: %s (must be the intersection where it is non-empty, the character's own classes where it is empty, "
+           "and nothing unconditional)" % verdicts, fn=f)
